@@ -216,6 +216,11 @@ func (ms *Modules) add(n Node) error {
 	mod.Modules = ms
 
 	ms.loaded[key] = mod
+	// What a namespace denotes depends on the set of modules: forget the
+	// answers given so far.
+	ms.nsMu.Lock()
+	ms.byNS = map[string]*Module{}
+	ms.nsMu.Unlock()
 	if fullName != name {
 		m[fullName] = mod
 	}
